@@ -100,6 +100,10 @@ func checkC13() *checkDef {
 						Init: []string{"Se:a:40", "Se:c:30", "T"}, Threads: [][]string{{"S:a:20"}}, Final: []string{"Q"}, ExpectPresent: []string{"a"}})
 					ps = append(ps, sched{Name: name("revalidate-vs-cleanup"), cp: base, Prop: "C13",
 						Init: []string{"Se:a:40", "T"}, Threads: [][]string{{"U:a"}, {"G:c"}}, Final: []string{"Q"}})
+					// the least recently used entry is overwritten (so it is the most recently used one) while an
+					// eviction cycle is between choosing its victims and removing them: the fresh entry stays
+					ps = append(ps, sched{Name: name("fresh-overwrite-vs-eviction"), cp: base, Prop: "C13",
+						Init: []string{"S:a:200", "A:50", "S:c:200", "A:50", "S:d:90", "L:300", "T"}, Threads: [][]string{{"S:a:20"}}, Final: []string{"Q"}, ExpectPresent: []string{"a"}})
 					// eviction racing a deletion that frees the bytes itself: the loop must stop once the cache
 					// reports the target, whoever freed the bytes (every janitor removal is traced with the size before it)
 					full := cp{Backend: be, Shards: sh, Limit: 1000, Interval: 1000}
